@@ -13,7 +13,6 @@ package main
 import (
 	"fmt"
 	"os"
-	"strings"
 
 	"github.com/ava-labs/avalanchego/ids"
 	"github.com/ava-labs/avalanchego/utils/logging"
@@ -222,10 +221,9 @@ func verdict(bt *built, c caseSpec, ob *obs, deadlock bool, blocked []string) (s
 	if want == bt.anyBad {
 		evid.Infra("harness: one-by-one verification disagrees with the construction (%s)", c)
 	}
-	sigErr := ob.err1 != nil && strings.Contains(ob.err1.Error(), "signatures failed verification")
-	if ob.err1 != nil && !sigErr {
-		return "unexpected-error", fmt.Sprintf("block failed with a non-signature error: %v", ob.err1)
-	}
+	// (any error fails the block: the wording / wrapping of the signature error is not part of the
+	// property; the twin block with the same transactions validly signed must pass, which rules out
+	// failures for other reasons)
 	if want && ob.err1 != nil {
 		return "valid-signatures-rejected", fmt.Sprintf("every auth verifies one by one but the block failed: %v", ob.err1)
 	}
